@@ -97,7 +97,7 @@ sexp json_read_number (sexp ctx, sexp self, sexp in) {
   buf[i] = '\0';
   res = strtod(buf, NULL);
   if (buf != initbuf) free(buf);
-  return (inexactp || fabs(res) > SEXP_MAX_FIXNUM) ?
+  return (inexactp || fabs(res) >= SEXP_MAX_FIXNUM) ?
     sexp_make_flonum(ctx, res) :
     sexp_make_fixnum(res);  /* always return inexact? */
 }
